@@ -171,7 +171,7 @@ Definition config_lines (registry : list string) (imports : list simport) (entri
   let imps := map import_format (sorted_imports (import_manager imports)) in
   (* repaired code: macros whose value is not literally representable are left out *)
   let macros := sort_stable full_key full_key_ltb
-                  (filter (fun e => is_macro e && match sget_value e with Some v => v_repr_ok v | None => true end) entries) in
+                  (filter (fun e => is_macro e && match sget_value e with Some v => v_repr_ok v | None => false end) entries) in
   let others := filter (fun e => negb (is_macro e) && negb (is_constant e)) (sort_stable full_key full_key_ltb entries) in
   imps ++ (match imps with [] => [] | _ => [""] end)
   ++ (match macros with [] => [] | _ => ["# Macros:"; rule maxlen] end)
